@@ -465,6 +465,10 @@ func (e *SpecEnv) call(n *ast.CallExpr) Value {
 	case "same":
 		a, b := e.slice(arg(0)), e.slice(arg(1))
 		return BoolV{Eq(a.Addr, b.Addr)}
+	case "fresh":
+		// fresh(s): the storage of s was allocated during the call (it lies at or above the entry watermark)
+		a := e.slice(arg(0))
+		return BoolV{Le(brk0, a.Addr)}
 	case "disjoint":
 		a, b := e.slice(arg(0)), e.slice(arg(1))
 		return BoolV{Or(Le(Add(a.Addr, a.Len), b.Addr), Le(Add(b.Addr, b.Len), a.Addr))}
